@@ -299,9 +299,15 @@ func (w *WebsocketConnection) writeMessageWithoutErrorHandling(messageType int, 
 
 // shutdown the connection and all internals
 func (w *WebsocketConnection) CloseDataConnection(closeCode int, reason string) {
+	// the connection is closed on purpose from here on. The remote side answers the close
+	// message right away, that answer must not be taken for a connection error
+	w.setConnClosedError(nil)
+
 	// send a close message to the remote side if we have a reason
-	if reason != "" {
-		_ = w.writeMessageWithoutErrorHandling(websocket.CloseMessage, websocket.FormatCloseMessage(closeCode, reason))
+	if reason != "" && w.conn != nil {
+		w.muxConWrite.Lock()
+		_ = w.conn.WriteMessage(websocket.CloseMessage, websocket.FormatCloseMessage(closeCode, reason))
+		w.muxConWrite.Unlock()
 	}
 
 	w.close()
